@@ -77,8 +77,8 @@ def translators(prop):
     return ok, log
 
 
-ALL_TRANSLATORS = ["tr_rules", "tr_prec", "tr_smart", "tr_naming", "tr_opts", "tr_jit"]
-TRANSLATORS_FOR: dict[str, list[str]] = {"C19": ["tr_rules"], "C16": ["tr_prec"], "C17": ["tr_smart"], "C13": ["tr_naming"], "C20": ["tr_opts"], "C14": ["tr_jit"], "C15": ["tr_jit"]}
+ALL_TRANSLATORS = ["tr_rules", "tr_prec", "tr_smart", "tr_naming", "tr_opts", "tr_jit", "tr_math"]
+TRANSLATORS_FOR: dict[str, list[str]] = {"C19": ["tr_rules"], "C16": ["tr_prec"], "C17": ["tr_smart"], "C13": ["tr_naming"], "C20": ["tr_opts"], "C14": ["tr_jit"], "C15": ["tr_jit"], "C09": ["tr_math"]}
 
 # what `make` must build for a property: only its own closure, so that a broken
 # obligation of one property never raises an alarm for another
@@ -90,6 +90,7 @@ PROP_TARGETS: dict[str, list[str]] = {
     "C02": ["theories/Flatten.vo", "theories/Affine.vo"],
     "C04": ["theories/Flatten.vo"],
     "C06": ["theories/FormData.vo"],
+    "C09": ["theories/MathTab.vo", "gen/MathTabGen.vo"],
     "C14": ["theories/Jit.vo", "gen/JitGen.vo"],
     "C15": ["theories/Jit.vo", "gen/JitGen.vo"],
     "C20": ["theories/Cli.vo", "gen/OptGen.vo"],
